@@ -201,3 +201,178 @@ def parser_half(h, res, rng, tier, py_scan):
     if thm_bad:
         res.tie_broken("C09P: model instance contradicts C09_parse_keeps_comments (stale .vo?)", repr(texts[thm_bad[0]]))
     return len(texts) - len(mism)
+
+
+# --------------------------------------------------------------------------- added in round C09P2
+def regen_tables(h, res):
+    """coq/gen/Grammar.v (grammar.pest as pest compiles it) and coq/gen/PrecTable.v (the Pratt table of the built crate)
+    are inputs of the parser-half theorems (C09_shape_*, C09_newline_never_yields_a_pair, C08_reparse_*): regenerate them
+    from the working tree BEFORE the proof step, so that those theorems are re-checked against the grammar that is there."""
+    import c10
+    try:
+        gi = c10.regen_grammar()
+        c10.regen_prec(h)
+    except c.BrokenTie as e:
+        res.tie_broken(e.what, e.detail)
+        return None
+    return gi
+
+
+def strip_positions(dump):
+    """`OK 1:2 e.. ;; 4:4 c..` -> the statement contents without the start:end lines (= Formatter.stmt_content)"""
+    if not dump.startswith("OK"):
+        return dump
+    body = dump[3:]
+    if not body:
+        return "OK"
+    return "OK " + " ;; ".join(st.split(" ", 1)[1] if " " in st else st for st in body.split(" ;; "))
+
+
+def reparse_stream(h, res, rng, tier, clir):
+    """REPARSE stream (C08): the texts the FORMATTER prints (library driver at sampled widths, its second pass, the real
+    `blots --format` binary) re-parsed by the parser model (Peg.v -> PegToItems -> PegComments.parse_program_c, one
+    vm_compute each) and by the implementation (get_pairs + statement loop + pairs_to_expr_with_comments): commented-AST
+    skeleton with every comment's role, statement start/end lines, comment pairs, shape flags.  This is the hypothesis
+    `q = parse_program_c (render d)` of C08_reparse_second_pass_lib / _cli compared with the code, and the grammar step
+    "the layout's text has the layout's pairs" observed end to end: re-parsing the first output must give the statement
+    CONTENTS (expressions with comment attachment, end-of-line comments) of re-parsing the second output.
+    -> number of texts on which model and implementation agreed"""
+    import c0809_gen as G
+    import c0809_lib as L
+    ok_build, log = c.coq_make(["PegComments.vo"])
+    if not ok_build:
+        res.tie_broken("coq/PegComments.v no longer compiles", log[-1500:])
+        return 0
+    quick = tier == "quick"
+    n = 160 if quick else 2500
+    gen = G.FmtGen(rng, comment_rate=(1, 3), max_depth=3)
+    progs = []
+    while len(progs) < n:
+        src, case = gen.program()
+        if len(src) <= 1200:
+            progs.append((src, case, L.pick_width(rng)))
+    o1 = L.impl_format(h, [(s, w, "lib") for s, _, w in progs])
+    o2 = L.impl_format(h, [((t if tg == "OK" else ""), w, "lib") for (tg, t), (_, _, w) in zip(o1, progs)])
+    ncli = max(1, n // 4)
+    oc = [clir.format(s) for s, _, _ in progs[:ncli]]
+    tagged = {}
+    widths = {}
+    for (tg, t), (_, _, w) in zip(o1, progs):
+        if tg == "OK" and len(t) <= 1500:
+            tagged.setdefault(t, "lib-first-pass")
+            widths["default" if w is None else ("<=20" if w <= 20 else "<=60" if w <= 60 else "<=120")] = \
+                widths.get("default" if w is None else ("<=20" if w <= 20 else "<=60" if w <= 60 else "<=120"), 0) + 1
+    for tg, t in o2:
+        if tg == "OK" and t is not None and len(t) <= 1500:
+            tagged.setdefault(t, "lib-second-pass")
+    for tg, t in oc:
+        if tg == "OK" and len(t) <= 1500:
+            tagged.setdefault(t, "cli-binary")
+    texts = [t for t in tagged if t != ""]
+    hexes = [c.hexs(t) for t in texts]
+    impl = c.harness_lines_resilient(h, "c09p", hexes)
+    implc = c.harness_lines_resilient(h, "c09pc", hexes)
+    try:
+        model = c.coq_eval_batch(REQ, "", ['show_all_c (hx "%s")' % x for x in hexes], "c08r", shard=150)
+    except c.BrokenTie as e:
+        res.tie_broken(e.what, e.detail)
+        return 0
+    by_text = {}
+    kinds = {}
+    mism = []
+    shape_bad = []
+    st = {"programs": len(progs), "formatted_texts": len(texts), "first_pass_widths": dict(sorted(widths.items())),
+          "impl_rejects_own_output": 0, "model_out_of_fuel": 0, "accepted": 0, "statements": 0, "comment_pairs": 0,
+          "texts_with_comment_pairs": 0, "multi_line_texts": 0,
+          "roles": {"leading": 0, "trailing": 0, "statement_own": 0, "statement_eol": 0},
+          "flags": {}}
+    for i, t in enumerate(texts):
+        kinds[tagged[t]] = kinds.get(tagged[t], 0) + 1
+        o = impl[i] or ""
+        m = model[i] or ""
+        if m == "FUEL":
+            st["model_out_of_fuel"] += 1
+        mdump, _, facts = m.partition(" @@ ")
+        by_text[t] = o
+        if not o.startswith("OK"):
+            st["impl_rejects_own_output"] += 1
+        if mdump != o:
+            mism.append(i)
+            continue
+        if not o.startswith("OK"):
+            continue
+        f = facts.split(" ## ")
+        if (implc[i] or "") != f[0]:
+            mism.append(i)
+            continue
+        st["accepted"] += 1
+        st["multi_line_texts"] += 1 if "\n" in t.strip("\n") else 0
+        st["statements"] += (o.count(" ;; ") + 1) if len(o) > 3 else 0
+        st["roles"]["leading"] += len(re.findall(r"(?<=[{,])l[0-9a-f]*,", o))
+        st["roles"]["trailing"] += len(re.findall(r"\|t[0-9a-f]*\}", o))
+        st["roles"]["statement_own"] += len(re.findall(r"(?:^OK |;; )\d+:\d+ c", o))
+        st["roles"]["statement_eol"] += len(re.findall(r" E[0-9a-f]*(?= ;;|$)", o))
+        tc = [x for x in f[0].split(",") if x != ""]
+        st["comment_pairs"] += len(tc)
+        st["texts_with_comment_pairs"] += 1 if tc else 0
+        flags = f[2] if len(f) > 2 else ""
+        st["flags"][flags] = st["flags"].get(flags, 0) + 1
+        if "S" not in flags or "V" not in flags:
+            shape_bad.append(i)
+    # the fixed point of comment attachment, on the real parser (and, the dumps being equal, on the model): the statement
+    # contents re-parsed from the first output = those re-parsed from the second output
+    moved = []
+    compared = 0
+    for (tg1, t1), (tg2, t2), (s, _, w) in zip(o1, o2, progs):
+        if tg1 != "OK" or tg2 != "OK" or t1 not in by_text or t2 not in by_text:
+            continue
+        a, b = by_text[t1], by_text[t2]
+        if not a.startswith("OK") or not b.startswith("OK"):
+            continue
+        compared += 1
+        if strip_positions(a) != strip_positions(b):
+            moved.append((s, w, t1, a, b))
+    # the hypothesis `map stmt_content q = map stmt_content p` of C08_reparse_second_pass_lib with p = the program the
+    # real parser builds from the SOURCE and q = the one it builds from the first output (q is also the model's, the
+    # dumps being equal): formatting and re-parsing keeps every expression skeleton and every comment's item and role
+    src_dumps = c.harness_lines_resilient(h, "c09p", [c.hexs(s) for s, _, _ in progs])
+    hyp_compared = 0
+    hyp_bad = []
+    for (tg1, t1), sd, (s, _, w) in zip(o1, src_dumps, progs):
+        if tg1 != "OK" or t1 not in by_text or not (sd or "").startswith("OK") or not by_text[t1].startswith("OK"):
+            continue
+        hyp_compared += 1
+        if strip_positions(sd) != strip_positions(by_text[t1]):
+            hyp_bad.append((s, w, t1, sd, by_text[t1]))
+    st["content_hypothesis_compared"] = hyp_compared
+    st["content_hypothesis_failures"] = len(hyp_bad)
+    if hyp_bad:
+        s, w, t1, sd, d1 = hyp_bad[0]
+        res.tie_broken("REPARSE: the hypothesis `map stmt_content q = map stmt_content p` of C08_reparse_second_pass_lib is false "
+                       "on %d of %d programs: re-parsing the formatter's output gives a different expression skeleton or comment "
+                       "attachment than parsing the source" % (len(hyp_bad), hyp_compared),
+                       "first: source=%r width=%r output=%r parse(source)=%s parse(output)=%s" % (s, w, t1, sd[:400], d1[:400]))
+    st["attachment_fixed_point_compared"] = compared
+    st["attachment_fixed_point_failures"] = len(moved)
+    st["kinds"] = dict(sorted(kinds.items()))
+    st["mismatches"] = len(mism)
+    st["shape_predicate_false_on_interpreter_tree"] = len(shape_bad)
+    res.streams["REPARSE-formatted-output"] = st
+    if st["model_out_of_fuel"]:
+        res.tie_broken("REPARSE: the PEG / Pratt model ran out of fuel on %d formatted texts" % st["model_out_of_fuel"])
+    if mism:
+        i = mism[0]
+        res.tie_broken("correspondence REPARSE: the parser model (Peg.v, PegToItems.v, PegComments.v) and the real parser "
+                       "disagree on %d of %d texts printed by the formatter" % (len(mism), len(texts)),
+                       "first: text=%r model=%s impl=%s pairs=%s" % (texts[i], (model[i] or "")[:700], (impl[i] or "")[:500],
+                                                                      (implc[i] or "")[:200]))
+    if shape_bad:
+        res.tie_broken("REPARSE: forest_shape_ok / forest_view_ok is false on the interpreter tree of a formatted text",
+                       "first: text=%r" % texts[shape_bad[0]])
+    for s, w, t1, a, b in moved[:3]:
+        res.violation("re-parsing the formatter's output attaches a comment to a different item / role than re-parsing its "
+                      "second output (comment placement is not a fixed point after one pass)",
+                      {"kind": "impl-law", "source": s, "width": w, "driver": "lib", "first_output": t1,
+                       "observed": {"reparse(format(p))": a, "reparse(format(format(p)))": b},
+                       "expected": "equal statement contents", "rerun": "./check C08 --replay <this file>"})
+    return len(texts) - len(mism)
